@@ -1034,7 +1034,8 @@ func TestVerifC18Escape(t *testing.T) {
 // to, "" if none. Only consulted when a violation was observed.
 //
 // A  include filter: a directory that is descended into without being selected itself is never
-//    passed to ensureDir, so a pre-existing symlink at its place is followed.
+//    passed to ensureDir, so a pre-existing symlink at its place is followed (repaired in /repo
+//    for files and special nodes below it; A2/A3: a selected directory below it).
 // B  overwrite never/if-newer: the first of several hard-linked file nodes is skipped because a
 //    pre-existing symlink sits at its place; the later ones are linked to that symlink and their
 //    mode is applied with chmod, which follows it.
@@ -1047,8 +1048,30 @@ func knownShapeC18(c *vCaseC18) string {
 	}
 	if c.Opts.Filter == "include" {
 		f := selectFilterC18(c.Opts)
-		var walk func(nodes []*vNodeC18, prefix string) bool
-		walk = func(nodes []*vNodeC18, prefix string) bool {
+		// selectedBelow reports whether a directory / a non-directory below is selected
+		var selectedBelow func(nodes []*vNodeC18, prefix string) (dirSel, otherSel bool)
+		selectedBelow = func(nodes []*vNodeC18, prefix string) (dirSel, otherSel bool) {
+			for _, nd := range nodes {
+				if !cleanCompC18(nd.Name) {
+					continue
+				}
+				loc := prefix + "/" + nd.Name
+				sel, child := f(loc, nd.Type == "dir")
+				if sel && nd.Type == "dir" {
+					dirSel = true
+				} else if sel && nd.Type != "socket" {
+					otherSel = true
+				}
+				if nd.Type == "dir" && child {
+					d, o := selectedBelow(nd.Sub, loc)
+					dirSel, otherSel = dirSel || d, otherSel || o
+				}
+			}
+			return
+		}
+		viaDir, viaOther := false, false
+		var walk func(nodes []*vNodeC18, prefix string)
+		walk = func(nodes []*vNodeC18, prefix string) {
 			for _, nd := range nodes {
 				if nd.Type != "dir" || !cleanCompC18(nd.Name) {
 					continue
@@ -1056,15 +1079,19 @@ func knownShapeC18(c *vCaseC18) string {
 				loc := prefix + "/" + nd.Name
 				sel, child := f(loc, true)
 				if !sel && child && presym[strings.TrimPrefix(loc, "/")] {
-					return true
+					d, o := selectedBelow(nd.Sub, loc)
+					viaDir, viaOther = viaDir || d, viaOther || o
 				}
-				if child && walk(nd.Sub, loc) {
-					return true
+				if child {
+					walk(nd.Sub, loc)
 				}
 			}
-			return false
 		}
-		if walk(c.Tree, "") {
+		walk(c.Tree, "")
+		switch {
+		case viaDir: // A2/A3: a selected directory below the symlinked, unselected ancestor
+			return "C18:include-filter-selected-dir-below-preexisting-symlink"
+		case viaOther: // A: only files/special nodes below it
 			return "C18:include-filter-follows-preexisting-dir-symlink"
 		}
 	}
